@@ -20,6 +20,7 @@ def check(run, tier):
         pass
     traces += E.random_histories(run, n, m, common.SEED, genkw={"weights": w, "users": ("alice", "bob")},
                                  batch_p=0.8)
+    traces += injected_failures(run, quick)
     E.judge(run, traces, only=ONLY, name="c08")
     E.summarise(run, traces)
     for t in traces:
@@ -27,3 +28,57 @@ def check(run, tier):
             if s.get("kind") == "req" and len(s["req"]["items"]) > 1:
                 run.case(("batch", tuple(i["op"] for i in s["req"]["items"]), s["req"]["opt"],
                           tuple(r["status"] for r in s["res"]["items"]), s["res"]["kind"]))
+
+
+def injected_failures(run, quick):
+    """Batches in which one handler dies with an exception its authors did not anticipate
+    (injected RuntimeError): the item must be reported as failed, Stop must stop there, Continue
+    must go on, and nothing the failed item touched may be committed by a later item."""
+    from .. import engdrv as D, engtrace as T
+    traces = []
+    ops = ["GetAttributes", "Activate", "ModifyAttribute", "Get", "Destroy"]
+    k = 0
+    for victim in ops:
+        for opt in ("None", "Stop", "Continue"):
+            for pos in (0, 1):
+                k += 1
+                drv = D.EngineDriver(intern=E.new_interner())
+                try:
+                    rec = T.Recorder(drv, "inj%d" % k)
+                    for _ in range(3):
+                        rec.request(D.one("Create", {"otype": "SymmetricKey", "attrs": [
+                            {"name": "Cryptographic Algorithm", "v": "AES"}, {"name": "Cryptographic Length", "v": 128},
+                            {"name": "Cryptographic Usage Mask", "v": ["ENCRYPT"]}, {"name": "Name", "idx": 0, "v": "n1"}]}))
+                    eng = drv.engine
+                    attr = {"GetAttributes": "_process_get_attributes", "Activate": "_process_activate",
+                            "ModifyAttribute": "_process_modify_attribute", "Get": "_process_get",
+                            "Destroy": "_process_destroy"}[victim]
+                    inner = getattr(eng, attr, None)
+                    if inner is None:
+                        raise common.MachineryFailure("engine has no %s to inject a fault into" % attr)
+                    state = {"n": 0}
+
+                    def boom(payload, inner=inner, state=state):
+                        state["n"] += 1
+                        if state["n"] == 1:
+                            raise RuntimeError("injected internal error")
+                        return inner(payload)
+                    setattr(eng, attr, boom)
+                    vp = {"uid": 1}
+                    if victim == "ModifyAttribute":
+                        vp = {"uid": 1, "attr": {"name": "Name", "idx": 0, "v": "n2"}}
+                    items = [{"op": "Activate", "bid": "a", "p": {"uid": 2}},
+                             {"op": "Revoke", "bid": "c", "p": {"uid": 3, "code": "KEY_COMPROMISE"}}]
+                    items.insert(pos, {"op": victim, "bid": "b", "p": vp})
+                    rec.request({"user": "alice", "groups": None, "ver": [1, 2], "opt": opt, "items": items})
+                    rec.request(D.one("Locate", {"filters": []}))
+                    rec.close()
+                    tr = rec.trace()
+                    tr["raw"] = rec.raw
+                    tr["injected"] = "%s raises RuntimeError at position %d, option %s" % (victim, pos, opt)
+                    traces.append(tr)
+                    run.case(("inject", victim, opt, pos))
+                finally:
+                    drv.close()
+    run.extra["injected_internal_errors"] = k
+    return traces
